@@ -505,6 +505,13 @@ def run(rep, tier, seed, replay):
     n_ast, n_edit, n_rand = SIZES[tier]
     if replay:
         r = json.load(open(replay))
+        if r.get("stage") == "decparams":      # a replay written by the decode-params stage: that stage alone
+            from props import c04_decparams
+            o, d = c04_decparams.stage(rep, tier, seed, hbin, replay=r)
+            rep.coverage.update({"obligations": len(thms) + o, "discharged": (len(thms) if ok else 0) + d, "evaluations": 1,
+                                 "distinct_nontrivial": 1, "checker_cmd": "verif-harness decparams replay %s %s" % (r["ctx"], r["hex"]),
+                                 "trusted_base": vlib.TRUSTED_BASE_COMMON, "rule": "replay of one byte string", "samples": [r], "histogram": {}})
+            return
         if r.get("src") and r.get("kind") in ("gen", "replay"):
             path = harness_output(hbin, ["replay-ast", r["ctx"]] + r["src"].split(" "))
         elif "hex" in r and "ctx" in r:
@@ -613,3 +620,11 @@ def run(rep, tier, seed, replay):
         "decode_canonical is PROVED for the model of this tree (C04_decode_canonical: every accepted byte string is the encoding of the result), under denv_ok (the key table inverts key serialisation; key/hash lengths as the Rust types fix them); the former NUMEQUAL VERIFY counter-example is a regression theorem and its class (numequal-verify-split) stays in the oracle",
         "ValidationParams beyond MAX (consensus / sane switches, satisfaction-size limits) are modelled under C12; here the consensus and sane decoders are judged by the oracle only",
         "identical spending semantics is taken as identical script bytes (the Script semantics of C01 is a function of the bytes)"]
+
+    # ---- stage decode-params (C04 x C12): decode_with_validation_params under many parameter sets vs
+    #      Ms/DecodeParamsModel.decode_with, statements in Properties/C04DecodeParams.v
+    if not replay:
+        from props import c04_decparams
+        o, d = c04_decparams.stage(rep, tier, seed, hbin)
+        rep.coverage["obligations"] += o
+        rep.coverage["discharged"] += d
